@@ -612,3 +612,9 @@ mod tests {
         assert_eq!(offsets.compute_start(42), (1, 27));
     }
 }
+
+#[cfg(rustic_core_verif)]
+#[allow(missing_docs, unused_imports, dead_code, clippy::all, clippy::pedantic, clippy::nursery)]
+pub mod verif_hooks {
+    use super::*;
+}
